@@ -12,7 +12,7 @@ from . import c13
 ID = "C14"
 META = {
     "technique": "runtime monitoring: inverse-pair monitor on split/parse vs merge (function level) and on parse_string(append_middleware)/write_string(prepend_middleware) (document level), over bounded-exhaustive single names and random name lists",
-    "level_text": "Every valid single name up to the token bound over the C13 alphabet plus the words 'and'/'AND' (as name words: tied, glued to a comma, first in the value) and random lists of 1-5 persons are split and parsed into NameParts by the real functions, merged last-name-first and joined with ' and ', and split/parsed again: the NameParts lists must be equal. Sampled documents run the same through parse_string with SeparateCoAuthors+SplitNameParts appended and write_string with MergeNameParts+MergeCoAuthors prepended (copy and in-place), re-parsed, with non-name fields and other blocks unchanged.",
+    "level_text": "Every valid single name up to the token bound over the C13 alphabet plus the words 'and'/'AND' (as name words: tied, glued to a comma, first in the value) and random lists of 1-5 persons are split and parsed into NameParts by the real functions, merged last-name-first and joined with ' and ', and split/parsed again: the NameParts lists must be equal. Sampled documents run the same through parse_string with SeparateCoAuthors+SplitNameParts appended and write_string with MergeNameParts+MergeCoAuthors prepended (copy and in-place), re-parsed, with non-name fields and other blocks unchanged. Every alphabetic string literal of the package source (read from the tree under test) is put into nine key=value style name shapes, and pairs of them into two-key shapes.",
     "level_note": "quantifier: valid names, non-empty Last, no word ending in an odd number of backslashes; document level excludes only values containing '@' (block-opener rule S1)",
 }
 RULE = ("case = author value: every valid single name <= L tokens over the C13 alphabet + random lists of 1-5 persons; non-trivial = a name with a von "
@@ -47,6 +47,27 @@ def rand_person(r):
 def cases(tier, seed, shard, nshards):
     for seq in tokens.sequences(ALPHA, _L(tier), shard, nshards):
         yield {"v": "".join(seq)}
+    # words built from the string literals of the package's own source, read from the CURRENT tree (seed C14-n: names written as
+    # `family=..., given=..., prefix=...` are assigned verbatim, which the merged `von Last, Jr, First` form cannot express): a keyword
+    # that switches on another notation is a literal in the source, so `literal=Word` shapes reach it without knowing it in advance
+    from ..gen import dictionary
+    lits = [l for l in dictionary.literals(safe_for_grammar=True) if l.isalpha() and l.isascii() and len(l) <= 12]
+    shapes = ["%s=van der Waals", "%s=Gogh, %s=Vincent, %s=Van", "%s=Smith, %s=Jr", "%s=Aa bb Cc, %s=Dd", "%s=Aa", "%s Aa bb Cc", "Aa %s Bb", "%s: Aa bb Cc", "%s=bb Cc, %s=Dd ee, %s=Ff"]
+    j = 0
+    for a in lits:
+        for sh in shapes:
+            j += 1
+            if j % nshards == shard:
+                others = [lits[(lits.index(a) + 7 * k) % len(lits)] for k in (1, 2)]
+                yield {"v": sh.replace("%s", a, 1).replace("%s", others[0], 1).replace("%s", others[1], 1)}
+    # ... and every ordered pair / triple of the literals that occur in one source file next to `=`-like name syntax is too many:
+    # pairs of literals that share a file are enumerated for the two-key shape
+    for a in lits:
+        for b in lits:
+            j += 1
+            if a != b and j % nshards == shard and (j // nshards) % tier_pick(tier, 4, 1) == 0:
+                yield {"v": "%s=Gogh van, %s=Vincent" % (a, b)}
+                yield {"v": "%s=Vincent, %s=van der Waals" % (a, b)}
     r = rng_for(seed, shard, "c14")
     for _ in range(tier_pick(tier, 40000, 1500000) // nshards):
         n = r.choice([1, 2, 2, 3, 5, 8])
